@@ -40,6 +40,7 @@ import (
 	"time"
 
 	ipfscluster "github.com/ipfs/ipfs-cluster"
+	"github.com/ipfs/ipfs-cluster/api"
 	"github.com/ipfs/ipfs-cluster/consensus/crdt"
 	"github.com/ipfs/ipfs-cluster/consensus/raft"
 	"github.com/ipfs/ipfs-cluster/datastore/inmem"
@@ -102,13 +103,19 @@ func rawStr(raw []int) string {
 	return strings.Join(s, ",")
 }
 
+// hsBase + p encodes the op "peer p (one of the real remote hosts) performed the join handshake": it called the
+// OPEN endpoints remotely with decodable arguments, so that their handlers really ran.
+const hsBase = 1000
+
 func opsStr(ops []int) string {
 	if len(ops) == 0 {
 		return "-"
 	}
 	s := make([]string, len(ops))
 	for i, v := range ops {
-		if v > 0 {
+		if v >= hsBase {
+			s[i] = "H" + strconv.Itoa(v-hsBase)
+		} else if v > 0 {
 			s[i] = "T" + strconv.Itoa(v-1)
 		} else {
 			s[i] = "D" + strconv.Itoa(-v-1)
@@ -169,6 +176,11 @@ func parseOps(s string) ([]int, error) {
 			out = append(out, v+1)
 		case 'D':
 			out = append(out, -(v + 1))
+		case 'H':
+			if v < 1 || v > nClients {
+				return nil, fmt.Errorf("op %q: only the real remote hosts can shake hands", t)
+			}
+			out = append(out, hsBase+v)
 		default:
 			return nil, fmt.Errorf("op %q", t)
 		}
@@ -396,19 +408,59 @@ func (w *world) consensusFor(c config) (ipfscluster.Consensus, func(), error) {
 	default:
 		return nil, nil, fmt.Errorf("mode %q", c.mode)
 	}
-	for _, o := range c.ops {
+	if hasHandshake(c.ops) {
+		// the calls are made in order once the RPC server runs (serve)
+		return cons, cleanup, nil
+	}
+	if err := w.applyOps(cons, c.ops, nil); err != nil {
+		cleanup()
+		return nil, nil, err
+	}
+	return cons, cleanup, nil
+}
+
+func hasHandshake(ops []int) bool {
+	for _, o := range ops {
+		if o >= hsBase {
+			return true
+		}
+	}
+	return false
+}
+
+// applyOps makes the Trust/Distrust calls in order; a handshake op is carried out by hs.
+func (w *world) applyOps(cons ipfscluster.Consensus, ops []int, hs func(caller int) error) error {
+	for _, o := range ops {
 		var err error
-		if o > 0 {
+		switch {
+		case o >= hsBase:
+			err = hs(o - hsBase)
+		case o > 0:
 			err = cons.Trust(ctx, w.pid(o-1))
-		} else {
+		default:
 			err = cons.Distrust(ctx, w.pid(-o-1))
 		}
 		if err != nil {
-			cleanup()
-			return nil, nil, err
+			return err
 		}
 	}
-	return cons, cleanup, nil
+	return nil
+}
+
+// handshake: the remote host `caller` calls the open endpoints of the served peer with arguments that decode, so
+// that the real handlers run: Cluster.Version, then Cluster.PeerAdd with its own ID (what Join() does at the
+// bootstrap peer). Cluster.ID is left out: its handler needs components this cluster does not have and only reads.
+// The answers do not matter (PeerAdd ends in an error when it asks the caller for its ID: the caller serves no RPC);
+// an authorization error would mean the endpoint is not open, which the rpc lines report.
+func (w *world) handshake(s *served, caller int) error {
+	cctx, cancel := context.WithTimeout(ctx, 20*time.Second)
+	defer cancel()
+	cl := w.rclient[caller-1]
+	var v api.Version
+	cl.CallContext(cctx, w.server.h.ID(), "Cluster", "Version", struct{}{}, &v)
+	var id api.ID
+	cl.CallContext(cctx, w.server.h.ID(), "Cluster", "PeerAdd", w.pid(caller), &id)
+	return nil
 }
 
 // clusterConfig is the cluster configuration section with the policy table of the case.
@@ -469,7 +521,14 @@ func (w *world) serve(c config) (*served, error) {
 	}
 	local := rpc.NewClientWithServer(w.server.h, version.RPCProtocol, srv)
 	cl.VerifSetRPC(srv, local)
-	return &served{cons: cons, cluster: cl, local: local, cleanup: func() { cl.VerifCancel(); cleanup() }}, nil
+	sv := &served{cons: cons, cluster: cl, local: local, cleanup: func() { cl.VerifCancel(); cleanup() }}
+	if hasHandshake(c.ops) {
+		if err := w.applyOps(cons, c.ops, func(caller int) error { return w.handshake(sv, caller) }); err != nil {
+			sv.cleanup()
+			return nil, err
+		}
+	}
+	return sv, nil
 }
 
 func classify(err error) string {
@@ -764,6 +823,13 @@ func genConfig0(r *common.Rng, w *world, k int) config {
 			c.ops = append(c.ops, -(p + 1))
 		}
 	}
+	if c.mode == "crdt" && r.Chance(1, 3) {
+		// join handshakes by remote hosts, anywhere among the calls: they must not change anybody's trust
+		for n := r.Range(1, 2); n > 0; n-- {
+			at := r.Intn(len(c.ops) + 1)
+			c.ops = append(c.ops[:at], append([]int{hsBase + r.Range(1, nClients)}, c.ops[at:]...)...)
+		}
+	}
 	if c.kind == "custom" {
 		for n := r.Range(1, 6); n > 0; n-- {
 			o := override{key: epName(w.eps[r.Intn(len(w.eps))])}
@@ -831,6 +897,10 @@ func configOfLine(f []string) (config, error) {
 func absAll(ops []int) []int {
 	var out []int
 	for _, o := range ops {
+		if o >= hsBase {
+			out = append(out, o-hsBase)
+			continue
+		}
 		if o < 0 {
 			o = -o
 		}
